@@ -25,7 +25,7 @@ def nontrivial(ops, tags):
 
 
 def gen(rng, tier):
-    n = 300 if tier == "quick" else 4000
+    n = 300 if tier == "quick" else 20000
     cases = []
     for k in range(n):
         seed = rng.randrange(1, 10**9)
